@@ -283,6 +283,23 @@ func main() {
 			}
 			return runCtrlCase(t, op, r)
 		})
+	case "c02":
+		c4, c7 := 16, 6
+		if run.Tier == "thorough" {
+			c4, c7 = 80, 30
+		}
+		pool := trafficPool(run.Seed, c4, c7)
+		parallelCases(run, run.N, func(idx int, r *hx.Rng) caseOut {
+			var t *Traffic
+			var op spectypes.OperatorID
+			if r.Chance(25) {
+				t, op = forgeTraffic(getEnv([]int{4, 4, 7}[r.Intn(3)]), r)
+			} else {
+				t = pool[r.Intn(len(pool))]
+				op = spectypes.OperatorID(1 + r.Intn(t.env.n))
+			}
+			return runC02Case(t, op, r)
+		})
 	default:
 		fmt.Fprintln(os.Stderr, "unknown mode", *mode)
 		os.Exit(2)
